@@ -9,6 +9,11 @@ COMMON_NOTE = ("Trusted: Lean 4.33 kernel; axioms propext/Classical.choice/Quot.
                "(translator and/or executed correspondence psyh<->psymodel), its generators and canonicalisers. ")
 
 CLAIMS = {
+ "C19": dict(
+   text="Lean 4 theorems (Props/C19.lean) over a decision model of CommandLineParser::detectCommandOptions and Driver::go/runCPP/runCFrontEnd with the outside world (file exists, preprocessing ok, syntax/semantic error reported under the configuration) as parameters: for every combination of documented option values, every non-empty list of existing files and every behaviour of the world, exit status 0 iff preprocessing succeeded and no error was reported for any file (semantic errors only without -fsyntax-only); every value listed by -help maps to the behaviour it names; every command line made of documented options/values and .c files decodes without error into exactly those options (induction over the argument list); any decoding error or undocumented value gives a message and status 1; the status is 0 or 1. Tie: the real cnip executable (built from /repo) on the full cross product -std x -disambiguation x -comment x -fsyntax-only x -dump-ast x -pp none x 5 files (1,400 runs, exhaustive), gcc-preprocessed modes sampled (thorough: complete), multi-file/override cases and ~100 malformed argument vectors; front-end verdicts come from psyh, so the exit-status oracle is independent of the driver.",
+   note="'--' sub-command execution and -analysis plugins are not modelled; 'prints each reported error' is checked only as non-empty stderr on failure; signals are observed on the real process, not provable in the model.",
+   technique="Lean 4 proof over a decision model (case analysis + induction over argv) + exhaustive differential runs of the real executable",
+   ref="DESIGN.md §4 C19"),
  "C20": dict(
    text="Lean 4 theorems (Props/C20.lean) over a statement-by-statement model of VersionedMap: for every key/value type and every valid history of any length, switching to a revision that was current earlier restores exactly its contents (incl. revision 0 and branches); insertions get fresh revision numbers and never alter other revisions. The hand model is tied to the real template by running all histories up to 5 ops over 3 keys x 2 values and up to 6 over 2 keys (thorough: 6/7) plus random long ones through both and diffing; the Lean snapshot spec is the oracle that yields the failing history.",
    note="std::unordered_map is assumed to be a finite map; uint32 wrap-around of the revision counter is not modelled; switches name existing revisions.",
